@@ -203,14 +203,14 @@ func BuildProbes(probe string, vs []Variant) (map[string]string, error) {
 
 // Proc is a running probe server speaking the ndjson protocol.
 type Proc struct {
-	Bin   string
-	Args  []string
-	Env   []string
-	cmd   *exec.Cmd
-	in    io.WriteCloser
-	out   *bufio.Reader
-	errb  *tailBuf
-	Died  bool
+	Bin    string
+	Args   []string
+	Env    []string
+	cmd    *exec.Cmd
+	in     io.WriteCloser
+	out    *bufio.Reader
+	errb   *tailBuf
+	Died   bool
 	Stderr string
 }
 
